@@ -54,6 +54,11 @@ CLAIMS = {
   text="Proved in Lean: a reservoir / Delay / NVAR run over xs ++ ys returns the rows of the run over xs followed by those of the run over ys from the memory the first left, and the same final memory (C07_reservoir_chunks, C07_delay_chunks, C07_nvar_chunks); for every network with feedback connections, order and clean store, the free run of xs ++ ys gives the concatenated observations of running xs then ys and the same final store, and each run leaves a clean store, so any chunking including pieces of length one is covered by induction (C07_model_chunks); a free call is the one-step run (C07_call_eq_run1); online training on xs ++ ys equals training on xs then ys for learn_every = 1, and for learn_every = k when k divides |xs| and no piece has length one (C07_train_chunks, C07_train_chunks_k - the gate restarts in every call, which is why the hypotheses are needed). Tied to the code by building every case twice from the same descriptor and comparing, bit for bit, one run against random chunkings executed by run() or successive call()s, final state(), and a probe run afterwards - for every node class and for the random feedback models of C05 - plus online training (RLS / LMS / FORCE, alone or behind a reservoir) whole vs pieces; the single runs are also compared exactly with the Lean model.",
   note="Trusted: Lean kernel + standard axioms; the Lean models; the harness. Finding K3 (ESN.run never advances the node's state) is reported as KNOWN-FINDING; run = successive calls is checked normally for the ESN node.",
   design="§6 C07"),
+ "C08": dict(
+  technique="Lean 4 proof (frame lemmas for the forward pass and the run loop; unwinding lemma for the stateless contexts, for every failure point) + exact differential correspondence on random operation histories with injected failures",
+  text="Proved in Lean for every network whose nodes keep no hidden memory outside their state (guard NoHidden, theorems named _partial), every order, clean store, from_state, reset flag and input sequence: a run with stateful=False returns exactly the store it started from - same states, memories, no proxy, no clamp (C08_stateless_run_noop_partial) - hence the same operation repeated gives the same result (C08_repeat_same_partial); the same holds when the run raises at ANY step k after ANY set of already evaluated nodes, given try/finally unwinding (C08_stateless_fail_noop_partial); from_state is overwrite-then-run (C08_from_state); reset makes two stores that differ only in model states equal, i.e. a reset model is a fresh one (C08_reset_fresh); the guard is necessary: a kernel-checked witness shows a node with hidden memory violating repeat-same (C08_hidden_leak_witness, finding K4). Tied to the code by random histories of call / run / run inside with_state / reset / reset(to_state) with every flag combination on single nodes and on the feedback models of C05, a node whose forward raises at a chosen step, every stateless operation repeated, reset-vs-fresh-twin runs: all states after every operation and all outputs are compared exactly with the model, and the property is evaluated directly (state() unchanged, repeat equal, reset = fresh).",
+  note="Trusted: Lean kernel + standard axioms; lean/RpyModel/Dataflow.lean; the harness. The failure model assumes try/finally unwinding (defect D4, repaired by a fix commit; its witness is a permanent corpus case). Hidden-memory kinds (external-equation reservoirs, NVAR, Delay) are finding K4: mirrored by the model, reported as KNOWN-FINDING only when the outputs equal the model's.",
+  design="§6 C08"),
 }
 
 NOT_YET = "check not built yet in this revision (planned, see DESIGN.md §11)"
